@@ -615,9 +615,10 @@ func WellOrdered(steps []string) (string, int) {
 			if role == "final" {
 				return "direct-write", i
 			}
-			if tmpBound {
-				dirty = f[0] == "write"
+			if tmpBound && f[0] == "write" {
+				dirty = true
 			}
+			// extWrite (SQLite checkpoint): flushes what it writes, but may write nothing: dirty stays as it is
 		case "fsync":
 			if role == "tmp" && tmpBound {
 				dirty = false
@@ -654,6 +655,17 @@ func WellOrdered(steps []string) (string, int) {
 }
 
 // Normalize reduces a static step list to what is comparable with an observed per-file sequence.
+// NormalizeAlt is Normalize for the behaviour in which an extWrite step writes (and flushes) nothing.
+func NormalizeAlt(steps []string) []string {
+	var kept []string
+	for _, st := range steps {
+		if !strings.HasPrefix(st, "extWrite") {
+			kept = append(kept, st)
+		}
+	}
+	return Normalize(kept)
+}
+
 func Normalize(steps []string) []string {
 	var out []string
 	push := func(s string) {
